@@ -458,3 +458,88 @@ func genHistory(r *Rng, h int) []*script {
 	}
 	return steps
 }
+
+// ---------- commands that answer a nil response with a nil error ----------
+
+// nilScripts: every command nil, alone and in pairs, for Sign and SignBlob, each
+// capability set, both formats, over an otherwise honest plugin and over a
+// plugin whose other answers fail (so that the order of the checks shows).
+func nilScripts() []*script {
+	var out []*script
+	r := NewRng(1818)
+	set := func(s *script, mask int) {
+		s.NilMeta, s.NilDK, s.NilGS, s.NilGE = mask&1 != 0, mask&2 != 0, mask&4 != 0, mask&8 != 0
+	}
+	masks := []int{1, 2, 4, 8, 3, 6, 10, 12, 15}
+	n := 0
+	for _, mask := range masks {
+		for _, blob := range []bool{false, true} {
+			for caps := 0; caps < 4; caps++ { // 0 none, 1 envelope, 2 raw, 3 both
+				for v := 0; v < 4; v++ { // variant of the other answers
+					mt := []string{MtJWS, MtCOSE}[n%2]
+					spec := c18Specs[n%len(c18Specs)]
+					n++
+					var s *script
+					if caps&2 != 0 {
+						s = rawHonest(r, spec, mt)
+						s.CapEnv = caps&1 != 0
+					} else {
+						s = envHonest(r, sysDesc, mt)
+						s.CapEnv = caps&1 != 0
+						s.DKSpec = spec
+					}
+					s.Family, s.Blob, s.CapOrder = "nil-answer", blob, n%4
+					op := fmt.Sprintf("nil:mask=%d,caps=%d", mask, caps)
+					switch v {
+					case 1: // describe-key fails on its own
+						switch n % 3 {
+						case 0:
+							s.DKErr = true
+						case 1:
+							s.DKKeyID = s.KeyID + "x"
+						default:
+							s.DKSpec = "EC-512"
+						}
+						op += ",dk-bad"
+					case 2: // the signing answer fails on its own
+						s.GSKeyID = s.KeyID + "x"
+						s.GEEcho = "application/other"
+						op += ",answer-bad"
+					case 3: // unsupported requested type / metadata error
+						if n%2 == 0 {
+							s.MT = "application/foo"
+						} else {
+							s.MetaErr = true
+						}
+						op += ",request-bad"
+					}
+					set(s, mask)
+					s.Ops = []string{op}
+					out = append(out, s)
+				}
+			}
+		}
+	}
+	return out
+}
+
+// nilHistory: on ONE signer a nil answer, then the honest answer (and back):
+// a nil answer must leave nothing behind.
+func nilHistory(r *Rng, h int) []*script {
+	mt := []string{MtJWS, MtCOSE}[h%2]
+	spec := c18Specs[h%len(c18Specs)]
+	mk := func(mask int) *script {
+		var s *script
+		if (h/2)%2 == 0 {
+			s = rawHonest(r, spec, mt)
+		} else {
+			s = envHonest(r, sysDesc, mt)
+		}
+		s.Family, s.Blob = "nil-answer", (h/4)%2 == 1
+		s.NilMeta, s.NilDK, s.NilGS, s.NilGE = mask&1 != 0, mask&2 != 0, mask&4 != 0, mask&8 != 0
+		s.Ops = []string{fmt.Sprintf("nil-history:mask=%d", mask)}
+		return rebase(s, "key1")
+	}
+	m1 := []int{1, 2, 4, 8}[(h/8)%4]
+	return []*script{mk(0), mk(m1), mk(0), mk(15), mk(0)}
+}
